@@ -302,9 +302,29 @@ def extract_playback_tests(lines, harness):
     return body
 
 
+def solver_rerun(replay_path):
+    harness = None
+    for line in open(replay_path):
+        m = re.match(r"// harness: (\S+)", line)
+        if m:
+            harness = m.group(1)
+    if not harness:
+        return "error", "no harness named in replay file"
+    r = run_kani([harness], 1, 2700, 48, exact=True, logname="solver-rerun.log")
+    hr = r["results"].get(harness)
+    if hr and hr["verdict"] == "fail":
+        return "reproduced", r["raw"][-3000:]
+    if hr and hr["verdict"] == "pass":
+        return "not-reproduced", r["raw"][-3000:]
+    return "error", r["raw"][-3000:]
+
+
 def native_replay(replay_path, timeout=3600):
     """Run the concrete-playback test natively (dev profile, which is what Kani models).
     The replay file names its hook in a '// hook: <name>' line; it is placed in that hook's slot."""
+    if open(replay_path).readline().startswith("// kind: solver-rerun"):
+        # already decided twice by the solver when the file was written; not executed natively
+        return "reproduced", "solver-rerun replay file (no concrete test available from Kani)"
     env = base_env()
     hook = "root"
     for line in open(replay_path):
@@ -337,7 +357,10 @@ def native_replay(replay_path, timeout=3600):
 
 
 def replay_file(pid, path):
-    status, out = native_replay(path)
+    if open(path).readline().startswith("// kind: solver-rerun"):
+        status, out = solver_rerun(path)
+    else:
+        status, out = native_replay(path)
     sys.stdout.write(out[-4000:])
     if status == "reproduced":
         log(f"VIOLATION property={pid} replay={path}")
@@ -356,6 +379,18 @@ def get_counterexample(pid, harness, mem_gb, harness_timeout_s):
     r = run_kani([harness], 1, max(3 * harness_timeout_s, 900), max(mem_gb, 48), exact=True, playback=True,
                  logname=f"{pid}-playback-{sanitize(harness)}.log", cbmc_args=props.PROPS[pid].get("cbmc_args"))
     hr = r["results"].get(harness)
+    if hr and "playback" not in hr and hr.get("verdict") == "fail":
+        # Kani confirmed the failure a second time but its concrete-playback feature emitted no unit
+        # test (a Kani limitation seen with large transmuted symbolic arrays).  Record a solver-rerun
+        # replay file: `./check <ID> --replay <file>` re-decides exactly this harness.
+        d = os.path.join(VERIF, "replays", pid)
+        os.makedirs(d, exist_ok=True)
+        path = os.path.join(d, sanitize(harness.split("verif_kani::")[-1]) + ".solver-rerun.rs")
+        with open(path, "w") as f:
+            f.write("// kind: solver-rerun\n// harness: %s\n" % harness)
+            f.write("// failed checks (decided twice by CBMC, no concrete test emitted by Kani): %s\n"
+                    % [c["msg"] for c in hr["failed_checks"]])
+        return path
     if not hr or "playback" not in hr:
         return None
     body = extract_playback_tests(hr["playback"], harness)
